@@ -47,6 +47,25 @@ func (timeoutError) Error() string   { return "sim: i/o timeout" }
 func (timeoutError) Timeout() bool   { return true }
 func (timeoutError) Temporary() bool { return true }
 
+// wrappedTimeout is a deadline error as layered transports (tunnels,
+// multiplexers) report it: a net.Error that says Timeout, wrapping a plain
+// cause that says nothing of the kind.
+type wrappedTimeout struct{ cause error }
+
+func (w wrappedTimeout) Error() string { return "sim: i/o timeout: " + w.cause.Error() }
+func (wrappedTimeout) Timeout() bool   { return true }
+func (wrappedTimeout) Temporary() bool { return true }
+func (w wrappedTimeout) Unwrap() error { return w.cause }
+
+var errStreamDeadline = errors.New("stream deadline reached")
+
+func (c *Conn) timeoutErr() error {
+	if c.errWraps {
+		return wrappedTimeout{errStreamDeadline}
+	}
+	return timeoutError{}
+}
+
 var errSimClosed = errors.New("sim: use of closed connection")
 
 // Event is one call observed on the conn.
@@ -83,8 +102,10 @@ type Conn struct {
 	// hook is called at "enter" and "exit" (success only) of every Read/Write.
 	hook func(k int, op, phase string)
 
-	segMax int  // max bytes per Read (0: all)
-	owned  bool // a layer above keeps the deadlines (ownDLConn)
+	segMax   int    // max bytes per Read (0: all)
+	errWraps bool   // deadline errors wrap a plain cause
+	dlHook   func() // called before a deadline call of the dialing goroutine takes effect
+	owned    bool   // a layer above keeps the deadlines (ownDLConn)
 }
 
 func newConn(start time.Time) *Conn {
@@ -121,7 +142,7 @@ func (c *Conn) Read(p []byte) (int, error) {
 		case c.closed:
 			err = errSimClosed
 		case !c.rdl.IsZero() && !time.Now().Before(c.rdl):
-			err = timeoutError{}
+			err = c.timeoutErr()
 		case len(c.in) > 0:
 			n := len(c.in)
 			if n > len(p) {
@@ -176,7 +197,7 @@ func (c *Conn) Write(p []byte) (int, error) {
 		case c.closed:
 			err = errSimClosed
 		case !c.wdl.IsZero() && !time.Now().Before(c.wdl):
-			err = timeoutError{}
+			err = c.timeoutErr()
 		case !c.writeBlocks && !(c.blockAfter > 0 && len(c.out)+len(p) > c.blockAfter):
 			c.out = append(c.out, p...)
 			c.log(Event{Op: "write", N: taken + len(p)})
@@ -241,11 +262,26 @@ func (c *Conn) SetDeadline(t time.Time) error      { c.rawDL("setdeadline", t); 
 func (c *Conn) SetReadDeadline(t time.Time) error  { c.rawDL("setreaddeadline", t); return nil }
 func (c *Conn) SetWriteDeadline(t time.Time) error { c.rawDL("setwritedeadline", t); return nil }
 
+// settleBeforeDL: a deadline call that is not the watcher's own (which sets
+// an instant long past) comes from the goroutine that runs Dial; like reads
+// and writes it is one of the points at which, when the context has already
+// ended, the watcher is let act first (dlHook) - so that the schedule
+// "watcher's deadline, then Dial's" is among those explored.
+func (c *Conn) settleBeforeDL(t time.Time) {
+	c.mu.Lock()
+	h := c.dlHook
+	c.mu.Unlock()
+	if h != nil && (t.IsZero() || time.Now().Before(t)) {
+		h()
+	}
+}
+
 // rawDL is a deadline call on the connection itself. When a layer above it
 // keeps the deadlines (ownDLConn), calls that bypass that layer are recorded
 // and change nothing, as with a tunnel or a buffering wrapper that does not
 // forward them.
 func (c *Conn) rawDL(which string, t time.Time) {
+	c.settleBeforeDL(t)
 	if c.owned {
 		c.mu.Lock()
 		c.log(Event{Op: "below_wrapper_" + which, Zero: t.IsZero(), Past: !t.IsZero() && !time.Now().Before(t)})
@@ -259,14 +295,26 @@ func (c *Conn) rawDL(which string, t time.Time) {
 // implements deadlines itself: only deadlines set on it affect I/O.
 type ownDLConn struct{ c *Conn }
 
-func (w ownDLConn) Read(p []byte) (int, error)         { return w.c.Read(p) }
-func (w ownDLConn) Write(p []byte) (int, error)        { return w.c.Write(p) }
-func (w ownDLConn) Close() error                       { return w.c.Close() }
-func (w ownDLConn) LocalAddr() net.Addr                { return w.c.LocalAddr() }
-func (w ownDLConn) RemoteAddr() net.Addr               { return w.c.RemoteAddr() }
-func (w ownDLConn) SetDeadline(t time.Time) error      { w.c.setDL("setdeadline", t); return nil }
-func (w ownDLConn) SetReadDeadline(t time.Time) error  { w.c.setDL("setreaddeadline", t); return nil }
-func (w ownDLConn) SetWriteDeadline(t time.Time) error { w.c.setDL("setwritedeadline", t); return nil }
+func (w ownDLConn) Read(p []byte) (int, error)  { return w.c.Read(p) }
+func (w ownDLConn) Write(p []byte) (int, error) { return w.c.Write(p) }
+func (w ownDLConn) Close() error                { return w.c.Close() }
+func (w ownDLConn) LocalAddr() net.Addr         { return w.c.LocalAddr() }
+func (w ownDLConn) RemoteAddr() net.Addr        { return w.c.RemoteAddr() }
+func (w ownDLConn) SetDeadline(t time.Time) error {
+	w.c.settleBeforeDL(t)
+	w.c.setDL("setdeadline", t)
+	return nil
+}
+func (w ownDLConn) SetReadDeadline(t time.Time) error {
+	w.c.settleBeforeDL(t)
+	w.c.setDL("setreaddeadline", t)
+	return nil
+}
+func (w ownDLConn) SetWriteDeadline(t time.Time) error {
+	w.c.settleBeforeDL(t)
+	w.c.setDL("setwritedeadline", t)
+	return nil
+}
 
 // failDLConn is a transport without deadlines: the calls fail and change
 // nothing (an ssh channel, a pipe of the application's own).
@@ -367,6 +415,7 @@ type scenario struct {
 	Trailing     bool
 	RBuf         int
 	SegMax       int
+	ErrWraps     bool // the conn's deadline errors wrap a plain cause (still net.Errors that report Timeout)
 }
 
 func (s scenario) String() string {
@@ -571,6 +620,7 @@ func dialOnce(sc scenario, plan cancelPlan, o *outcome) {
 			}
 			c := newConn(start)
 			c.segMax = sc.SegMax
+			c.errWraps = sc.ErrWraps
 			c.writeBlocks = sc.Peer == 3
 			if sc.Peer == 3 && sc.WriteWin > 0 {
 				// The peer takes the first bytes of the request, then stalls:
@@ -647,6 +697,12 @@ func dialOnce(sc scenario, plan cancelPlan, o *outcome) {
 				// between two ready select cases).
 				ended := ctx.Err() != nil || (sc.Timeout != 0 && time.Since(start) >= sc.Timeout)
 				if phase == "enter" && plan.Kind != "unforced" && ended {
+					synctest.Wait()
+				}
+			}
+			c.dlHook = func() {
+				ended := ctx.Err() != nil || (sc.Timeout != 0 && time.Since(start) >= sc.Timeout)
+				if plan.Kind != "unforced" && ended {
 					synctest.Wait()
 				}
 			}
@@ -832,6 +888,7 @@ func drawScenario(r *eng.Run) scenario {
 	}
 	sc.RBuf = []int{0, 16, 64}[r.T.Int(sim.LSize, 3)]
 	sc.SegMax = []int{0, 1, 7}[r.T.Int(sim.LSeg, 3)]
+	sc.ErrWraps = r.T.Chance(sim.LCfg, 1, 4)
 	// Deadlines avoid exact ties with peer events (multiples of 50ms): +-1ms.
 	instants := []time.Duration{25 * ms, 49 * ms, 51 * ms, 99 * ms, 101 * ms, 149 * ms, 151 * ms, 199 * ms, 251 * ms, 349 * ms, 351 * ms, 451 * ms, 900 * ms, 5000 * ms}
 	if sc.CtxKind == 2 {
